@@ -190,8 +190,8 @@ func (c *C07Case) refFormat() string {
 func (c *C07Case) envelope(got string) (v *Violation, inserted int, tight bool) {
 	items := c.normItems()
 	lines := strings.Split(got, "\n")
-	pos := 0   // next input item
-	idx := 0   // line index inside the paragraph
+	pos := 0 // next input item
+	idx := 0 // line index inside the paragraph
 	space := c.glyph(" ")
 	prevWidth := 0
 	for li, ln := range lines {
